@@ -166,6 +166,17 @@ fn crafted_programs() -> Vec<Prog> {
         src += " acc\n}\n";
         v.push(Prog { origin: format!("crafted-defs-{n}"), src, consts: vec![] });
     }
+    // types whose size depends on what they refer to by name (history independence, see `siblings`)
+    v.push(Prog {
+        origin: "crafted-enum-of-named-types".into(),
+        src: "enum Shape { Dot(Point), Pair(Point, Point), None }\nstruct Point { x: u8, y: u16 }\npub fn main(s: Shape, k: u8) -> u16 {\n match s { Shape::Dot(p) => p.y + (p.x as u16), Shape::Pair(p, q) => p.y ^ q.y, Shape::None => k as u16 }\n}\n".into(),
+        consts: vec![],
+    });
+    v.push(Prog {
+        origin: "crafted-enum-of-const-sized-array".into(),
+        src: "const N: usize = PARTY_0::N;\nenum Msg { Data([u8; N]), Empty }\npub fn main(m: Msg, k: u8) -> u8 {\n match m { Msg::Data(d) => { let mut s = k; for e in d { s = s ^ e; } s }, Msg::Empty => k }\n}\n".into(),
+        consts: vec![("PARTY_0".into(), "N".into(), 2, "usize")],
+    });
     v
 }
 
@@ -192,6 +203,54 @@ pub fn programs() -> Vec<Prog> {
         v.push(Prog { origin: format!("op-program-{i}"), src, consts: vec![] });
     }
     v
+}
+
+/// Programs that differ from `p` only in things an enum / struct / function refers to by name: other
+/// values of the same constants, or another width of a primitive type inside a type definition.
+/// Compiling one of them first must not influence the compilation of `p` (history independence).
+fn siblings(p: &Prog) -> Vec<Prog> {
+    let mut out = vec![];
+    if !p.consts.is_empty() {
+        let consts = p.consts.iter().map(|(a, b, v, t)| (a.clone(), b.clone(), v + 1, *t)).collect();
+        out.push(Prog { origin: format!("{} [other constant values]", p.origin), src: p.src.clone(), consts });
+    }
+    let toks = super::c07::lex(&p.src);
+    let text = |i: usize| &p.src[toks[i].0..toks[i].1];
+    let prims = ["bool", "u8", "u16", "u32", "u64", "i8", "i16", "i32", "i64", "usize"];
+    let mut sites = vec![];
+    let mut i = 0;
+    while i < toks.len() {
+        if text(i) == "struct" || text(i) == "enum" {
+            // up to the matching closing brace
+            let mut depth = 0i32;
+            let mut j = i;
+            while j < toks.len() {
+                match text(j) {
+                    "{" => depth += 1,
+                    "}" => {
+                        depth -= 1;
+                        if depth == 0 {
+                            break;
+                        }
+                    }
+                    t if depth > 0 && prims.contains(&t) => sites.push(j),
+                    _ => {}
+                }
+                j += 1;
+            }
+            i = j;
+        }
+        i += 1;
+    }
+    let n = sites.len();
+    for k in [0, n / 2, n.saturating_sub(1)].into_iter().collect::<std::collections::BTreeSet<usize>>() {
+        if let Some(&site) = sites.get(k) {
+            let with = if text(site) == "u64" { "u8" } else { "u64" };
+            let src = format!("{}{}{}", &p.src[..toks[site].0], with, &p.src[toks[site].1..]);
+            out.push(Prog { origin: format!("{} [{} -> {with} inside a type definition]", p.origin, text(site)), src, consts: p.consts.clone() });
+        }
+    }
+    out
 }
 
 /// Worker process: `gverif worker compile-hash <n_per_process>`: prints one line per program and
@@ -257,6 +316,56 @@ pub fn run(ctx: &Ctx) -> i32 {
             compilations += 1;
         }
     }
+    // history independence: P compiled in a fresh thread vs. P compiled in a fresh thread right after
+    // a sibling program (same text of every definition, other sizes behind the names it refers to)
+    let history = par(WORKERS, |w| {
+        let mut cases = 0u64;
+        let mut diffs: Vec<Value> = vec![];
+        for (i, p) in progs.iter().enumerate() {
+            if i % WORKERS != w || ctx.past(0.8) {
+                continue;
+            }
+            let sibs = siblings(p);
+            if sibs.is_empty() {
+                continue;
+            }
+            let fresh = std::thread::scope(|s| std::thread::Builder::new().stack_size(64 << 20).spawn_scoped(s, || outcome_sig(p, true)).unwrap().join());
+            let Ok(fresh) = fresh else { continue };
+            if !fresh.starts_with("ok") {
+                continue;
+            }
+            for sib in &sibs {
+                let after = std::thread::scope(|s| {
+                    std::thread::Builder::new()
+                        .stack_size(64 << 20)
+                        .spawn_scoped(s, || {
+                            let _ = outcome_sig(sib, true);
+                            outcome_sig(p, true)
+                        })
+                        .unwrap()
+                        .join()
+                });
+                cases += 1;
+                match after {
+                    Ok(a) if a == fresh => {}
+                    Ok(a) => diffs.push(json!({"origin": p.origin, "program": p.src, "compiled_before": sib.origin, "sibling_program": sib.src, "fresh": fresh, "after_sibling": a})),
+                    Err(_) => diffs.push(json!({"origin": p.origin, "program": p.src, "compiled_before": sib.origin, "sibling_program": sib.src, "fresh": fresh, "after_sibling": "thread panicked"})),
+                }
+            }
+        }
+        (cases, diffs)
+    });
+    let mut history_cases = 0u64;
+    for (c, diffs) in history {
+        history_cases += c;
+        for d in diffs {
+            ctx.violation(
+                &format!("{}: the circuit depends on what was compiled before in the same thread ({})", d["origin"].as_str().unwrap_or(""), d["compiled_before"].as_str().unwrap_or("")),
+                d,
+            );
+        }
+    }
+    compilations += 3 * history_cases;
     // fresh processes
     let exe = std::env::current_exe().unwrap();
     let mut processes_ok = 0;
@@ -315,6 +424,7 @@ pub fn run(ctx: &Ctx) -> i32 {
     cov.insert("programs".into(), json!(progs.len()));
     cov.insert("compilations".into(), json!(compilations));
     cov.insert("fresh_processes".into(), json!(processes_ok));
+    cov.insert("history_cases_program_after_sibling".into(), json!(history_cases));
     cov.insert("distinct_canary_hash_orders".into(), json!(canaries.len()));
     cov.insert("by_outcome".into(), counts.to_json());
     cov.insert("exhaustive".into(), json!(false));
